@@ -220,7 +220,11 @@ func (p c03) Run(c *fw.Ctx, idx int) fw.Result {
 	}
 	op := gen.DefaultOpProfile(r)
 	op.MultiOps = idx%7 == 0
-	op.NoSingletonVars = true
+	op.NoSingletonVars = idx%2 == 0
+	op.MultiFrag = idx%3 != 0
+	if idx%4 == 1 {
+		op.VarBias = 7
+	}
 	if schema.Mutation != "" && idx%11 == 0 {
 		op.Kind = "mutation"
 	}
@@ -262,8 +266,10 @@ func (p c03) Run(c *fw.Ctx, idx int) fw.Result {
 	if a.Stage != "" {
 		// whether a valid operation is admitted is what C04 / C06 decide (same generators); C03 is
 		// about what normalisation yields, so a refusal leaves this case undecided here
+		// (the single-pass default sequence below, which refuses nothing, is still judged)
 		res.Inconclusive = "admission-refused: " + a.Err
 		res.Count("admission_refused", 1)
+		p.defaultSequence(&res, ss, text, opName, vars, want, seed, detail)
 		return res
 	}
 	p.judge(&res, ss, "engine", a.Printed, a.Variables, a.Remap, opName, want, seed, detail)
@@ -289,27 +295,7 @@ func (p c03) Run(c *fw.Ctx, idx int) fw.Result {
 		}
 	}
 
-	// ---- sequence 2: Request.Normalize with its default options (single pass)
-	printed2, vars2, err := rig.DefaultNormalize(ss.Repo, text, opName, vars)
-	if err != nil {
-		res.Violate("normalize.rejects-valid", "Request.Normalize (default options) fails on a valid operation: "+err.Error(), map[string]string{"stage": "normalize", "sequence": "default"}, detail(nil))
-	} else {
-		p.judge(&res, ss, "default", printed2, vars2, nil, "", want, seed, detail)
-		res.Count("idempotence_checked", 1)
-		printed3, vars3, err := rig.DefaultNormalize(ss.Repo, printed2, "", vars2)
-		if err != nil {
-			res.Violate("normalize.idempotence", "normalised operation fails to normalise again: "+err.Error(), map[string]string{"sequence": "default", "what": "refused"}, detail(map[string]any{"normalized": printed2, "normalized_variables": string(vars2)}))
-		} else {
-			if printed3 != printed2 {
-				res.Violate("normalize.idempotence", "second normalisation changes the printed operation", map[string]string{"sequence": "default", "what": "print", "only_fragment_structure": fmt.Sprint(onlyFragmentStructure(printed2, printed3))}, detail(map[string]any{"first": printed2, "second": printed3}))
-			}
-			m2, e2 := decodeVars(vars2)
-			m3, e3 := decodeVars(vars3)
-			if e2 == nil && e3 == nil && ref.Canon(anyMap(m2)) != ref.Canon(anyMap(m3)) {
-				res.Violate("normalize.idempotence", "second normalisation changes the variables", map[string]string{"sequence": "default", "what": "variables"}, detail(map[string]any{"normalized": printed2, "first": string(vars2), "second": string(vars3)}))
-			}
-		}
-	}
+	p.defaultSequence(&res, ss, text, opName, vars, want, seed, detail)
 
 	// ---- equivalence variants → same canonical print (engine sequence incl. VariablesMapper)
 	if len(doc.Ops) == 1 {
@@ -361,6 +347,31 @@ func anyMap(m map[string]any) any {
 
 // judge checks one normalisation output: variables are JSON, operation valid on both sides, same
 // reference results as the original.
+// defaultSequence judges Request.Normalize with its default options (single pass) and its idempotence.
+func (p c03) defaultSequence(res *fw.Result, ss *rig.Schemas, text, opName string, vars []byte, want []string, seed uint64, detail func(map[string]any) map[string]any) {
+	// ---- sequence 2: Request.Normalize with its default options (single pass)
+	printed2, vars2, err := rig.DefaultNormalize(ss.Repo, text, opName, vars)
+	if err != nil {
+		res.Violate("normalize.rejects-valid", "Request.Normalize (default options) fails on a valid operation: "+err.Error(), map[string]string{"stage": "normalize", "sequence": "default"}, detail(nil))
+	} else {
+		p.judge(res, ss, "default", printed2, vars2, nil, "", want, seed, detail)
+		res.Count("idempotence_checked", 1)
+		printed3, vars3, err := rig.DefaultNormalize(ss.Repo, printed2, "", vars2)
+		if err != nil {
+			res.Violate("normalize.idempotence", "normalised operation fails to normalise again: "+err.Error(), map[string]string{"sequence": "default", "what": "refused"}, detail(map[string]any{"normalized": printed2, "normalized_variables": string(vars2)}))
+		} else {
+			if printed3 != printed2 {
+				res.Violate("normalize.idempotence", "second normalisation changes the printed operation", map[string]string{"sequence": "default", "what": "print", "only_fragment_structure": fmt.Sprint(onlyFragmentStructure(printed2, printed3))}, detail(map[string]any{"first": printed2, "second": printed3}))
+			}
+			m2, e2 := decodeVars(vars2)
+			m3, e3 := decodeVars(vars3)
+			if e2 == nil && e3 == nil && ref.Canon(anyMap(m2)) != ref.Canon(anyMap(m3)) {
+				res.Violate("normalize.idempotence", "second normalisation changes the variables", map[string]string{"sequence": "default", "what": "variables"}, detail(map[string]any{"normalized": printed2, "first": string(vars2), "second": string(vars3)}))
+			}
+		}
+	}
+}
+
 func (p c03) judge(res *fw.Result, ss *rig.Schemas, seq, printed string, variables []byte, remap map[string]string, opName string, want []string, seed uint64, detail func(map[string]any) map[string]any) {
 	d := func(extra map[string]any) map[string]any {
 		m := detail(map[string]any{"sequence": seq, "normalized": printed, "normalized_variables": string(variables), "remap": remap})
